@@ -12,6 +12,7 @@
 -/
 import Frrs.Proofs.Compat
 import Frrs.Props.C05
+import Frrs.Proofs.Cli
 namespace Frrs.C07
 open Frrs
 set_option linter.unusedSimpArgs false
@@ -102,5 +103,23 @@ example : compat b!"hunter2" b!"***REMOVED***" = true := by decide +kernel
 example : compat b!"secret" b!"X" = true := by decide +kernel
 example : ¬ Occurs b!"hunter2" (replaceAll b!"pw=hunter2hunter2;" b!"hunter2" b!"***REMOVED***") :=
   literal_gone _ _ _ (by decide) (by decide +kernel)
+
+
+/-! ### the clean-up is there for every full, real run (model of `parse_args`, Frrs/Cli.lean) -/
+
+/-- **Whatever is typed on the command line, a run that is neither partial nor a dry run is given a clean-up mode**
+    (`reflog expire --expire=now --all` and `gc --prune=now` run after the import). In particular the legacy spelling
+    `--cleanup none` cannot switch it off for a full rewrite. -/
+theorem full_real_run_is_cleaned (badRegex argv : List Bytes) (o : Cli.CliOpts)
+    (h : Cli.parseArgs badRegex argv = .ok o) (hp : o.partialRun = false) (hd : o.dryRun = false) :
+    o.cleanup ≠ .none := Cli.full_real_run_cleans badRegex argv o h hp hd
+
+/-- the only way to a full-history export is the default ref selection: any `--ref`/`--refs` makes the run partial -/
+theorem ref_selection_means_partial (badRegex argv : List Bytes) (o : Cli.CliOpts)
+    (h : Cli.parseArgs badRegex argv = .ok o) (hr : o.refs ≠ [b!"--all"]) : o.partialRun = true :=
+  Cli.selected_refs_mean_partial badRegex argv o h hr
+
+example : ((Cli.okOf (Cli.parseArgs [] [b!"--replace-text", b!"rules.txt", b!"--cleanup", b!"none"])).map (·.cleanup))
+    = some Cli.Cleanup.standard := by decide +kernel
 
 end Frrs.C07
